@@ -14,7 +14,7 @@ import z3
 
 from . import contract as C
 from . import source as S
-from .state import Decisions, Obligation, PathEnd, State, Undecided, all_hyps
+from .state import Decisions, Obligation, PathEnd, State, Undecided, _has_quantifier, all_hyps
 from .values import (UNBOUND, BoundMethod, BuiltinV, ClassV, DictObj, ExcObj, FuncV, FunV, ListObj, ModuleV, PyObj, RecV, Ref, SetObj, SV,
                      T, TAddr, TBool, TDict, TFun, TInt, TList, TObj, TOpt, TRange, TReal, TRec, TSet, TStr, TStruct, TTuple, TVal, Unsupported,
                      is_concrete, str_lit, type_of_value, val_none)
@@ -157,7 +157,9 @@ class Executor:
             if z3.is_true(g):
                 ob.result, ob.backend = "unsat", "simplifier"
             self.obligations[key] = ob
-        if assume_after:
+        if assume_after and (kind in ("safety", "pre", "inv_init") or not _has_quantifier(g)):
+            # a checked fact may be used afterwards; quantified end-of-path clauses are not re-asserted (they would only
+            # clutter the hypotheses of the clauses checked after them)
             st.assume(goal)
 
     def run_once(self):
@@ -224,13 +226,17 @@ class Executor:
             for gname, term in ct.ghost_final(c).items():
                 st.heap.sym[gname] = term
         if exc is None:
+            frame_first = getattr(ct, "frame_first", False)  # opt-in: frame obligations before (hence without) the postconditions as hypotheses
+            if frame_first:
+                self.check_frame(old_heap, args, ct.modifies, "frame", end)
             for label, f in ct.ensures(c):
                 self.check(f, "post", label, end)
             if ct.raises_exact:
                 for en, cond in ct.raises.items():
                     if cond is not None:
                         self.check(z3.Not(cond(c)), "raises", f"no-{en}-implies-not-condition", end)
-            self.check_frame(old_heap, args, ct.modifies, "frame", end)
+            if not frame_first:
+                self.check_frame(old_heap, args, ct.modifies, "frame", end)
         else:
             entry = None
             for en, cond in ct.raises.items():
@@ -269,6 +275,8 @@ class Executor:
     def modifiable_ids(self, paths, args, heap) -> set:
         ids = set()
         for p in paths:
+            if p.endswith("#vals"):
+                p = p[:-5]
             try:
                 v = self.resolve_path(p, args, heap)
             except (KeyError, AttributeError):
@@ -353,6 +361,10 @@ class Executor:
             if not (o.elems.eq(n.elems) and o.n.eq(n.n)):
                 i = z3.Int("i!fr")
                 out.append(("list", z3.And(o.n == n.n, z3.ForAll([i], z3.Implies(z3.And(0 <= i, i < o.n), o.elems[i] == n.elems[i])))))
+        else:
+            r = self.models._plug("frame_facts", self, o, n)  # other heap objects (opt-in, e.g. numpy arrays: plug_np_c10)
+            if r is not NotImplemented:
+                out += r
         return out
 
     # ------------------------------------------------------------------ statements
@@ -406,7 +418,13 @@ class Executor:
         raise ContinueSig
 
     def st_If(self, node):
-        if self.st.decide(self.truth(self.ev(node.test))):
+        t = self.ev(node.test)
+        taken = self.st.decide(self.truth(t))
+        nar = getattr(t, "narrow", None) if isinstance(t, SV) else None
+        if nar is not None and nar[0] in self.frame.env:
+            # `if x is [not] None:` on an optional value: x is its payload / None in the respective branch
+            self.frame.env[nar[0]] = nar[1] if taken else nar[2]
+        if taken:
             self.exec_block(node.body)
         else:
             self.exec_block(node.orelse)
@@ -625,6 +643,7 @@ class Executor:
             for label, f in spec.inv(self._loop_ctx(seq, k), k):
                 st.assume(f)
             if is_for:
+                self._assume_iteration_instance(seq, k)
                 self.assign(node.target, seq.elem(k))
             else:
                 if not st.decide(self.truth(self.ev(node.test))):
@@ -650,6 +669,17 @@ class Executor:
                     continue
                 for label, f in self.obj_equal_facts(o, st.heap[i], st.heap, snap):
                     self.check(f, "loop_frame", f"unchanged:{label}", ln, aux=True)
+            for path in spec.modifies:
+                if path.endswith("#vals"):
+                    # only the values may have changed: keys, order and size of the dict are as before the iteration
+                    ref = self.resolve_path(path[:-5], fr.env)
+                    a, b = snap[ref.id], st.heap[ref.id]
+                    if not (a.member.eq(b.member) and a.n.eq(b.n) and _same(a.keys, b.keys) and _same(a.pos, b.pos)):
+                        kq = z3.Const("k!lf", a.k.sort())
+                        iq = z3.Int("i!lf")
+                        self.check(z3.And(a.n == b.n, z3.ForAll([kq], a.member[kq] == b.member[kq])), "loop_frame", f"same-keys:{path}", ln, aux=True)
+                        if a.keys is not None and b.keys is not None:
+                            self.check(z3.ForAll([iq], z3.Implies(z3.And(0 <= iq, iq < a.n), a.keys[iq] == b.keys[iq])), "loop_frame", f"same-order:{path}", ln, aux=True)
             self.check_symheap_frame(snap, spec.modifies, "loop_frame", ln)
             raise PathEnd
         # 3. exit
@@ -679,6 +709,14 @@ class Executor:
             st.assume(z3.Not(self.truth_term(self.ev(node.test))))
         leave()
         self.exec_block(node.orelse)
+
+    def _assume_iteration_instance(self, seq, k):
+        """Ground instance, at the current index, of the order view of the iterated dict/set (keys[k] is a member at position k)."""
+        keys, pos, mem = getattr(seq, "keys", None), getattr(seq, "pos", None), getattr(seq, "member", None)
+        if keys is not None and pos is not None:
+            self.st.assume(pos[keys[k]] == k)
+            if mem is not None:
+                self.st.assume(mem[keys[k]])
 
     def fresh_like(self, v, hint):
         st = self.st
@@ -718,9 +756,20 @@ class Executor:
 
             st.heap.sym[name] = st.fresh_const(f"ghost_{name}", GHOST_SORTS[name])
             return
+        vals_only = path.endswith("#vals")
+        if vals_only:
+            path = path[:-5]
         v = self.resolve_path(path, env)
         if not isinstance(v, Ref):
             raise Unsupported(f"modifies path {path} is not a heap object")
+        if vals_only:
+            # only the values of the dict may change (keys, order and size are kept)
+            o = st.heap[v.id]
+            if not isinstance(o, DictObj):
+                raise Unsupported(f"{path}#vals is not a dict")
+            o.vals = st.fresh_const(f"{path}_vals", o.vals.sort())
+            self.writeback(o)
+            return
         self.havoc_obj(v, path)
 
     def havoc_obj(self, ref: Ref, hint: str):
@@ -752,6 +801,8 @@ class Executor:
             o.n, o.elems = new.n, new.elems
             o.is_empty_literal = False
             self.writeback(o)
+        else:
+            self.models._plug("havoc_obj", self, ref, o, hint)  # other heap objects (e.g. numpy arrays mutated in a loop: plug_np_c17)
 
     def writeback(self, o):
         """Propagate a mutation of a container projected out of another container."""
@@ -854,6 +905,9 @@ class Executor:
     def coerce(self, v, t: T):
         """Adapt a value to a declared field type (e.g. ``{}`` literal -> typed empty dict)."""
         st = self.st
+        r = self.models._plug("coerce", self, v, t)  # plugin-specific adaptations (gated by the plugin on its own module/types)
+        if r is not NotImplemented:
+            return r
         if isinstance(v, Ref):
             o = st.heap[v.id]
             if getattr(o, "is_empty_literal", False):
@@ -930,6 +984,10 @@ class Executor:
                 if isinstance(x, str) or (isinstance(x, SV) and x.ty == TStr):
                     parts.append(x)
                 else:
+                    r = self.models._plug("fstring_part", self, x)  # e.g. f"{i}" of an int in a module whose plugin models str(int) (plug_hdf)
+                    if r is not NotImplemented and isinstance(r, SV) and r.ty == TStr:
+                        parts.append(r)
+                        continue
                     parts = None
                     break
             else:
@@ -1149,6 +1207,10 @@ class Executor:
             right = self.ev(rnode)
             r = self.compare(type(op).__name__, left, right, node.lineno)
             if len(node.ops) == 1:
+                if isinstance(op, (ast.Is, ast.IsNot)) and right is None and isinstance(node.left, ast.Name) and isinstance(left, SV) \
+                        and isinstance(left.ty, TOpt) and isinstance(r, SV):
+                    payload = left.ty.get(self.st, left.term, left.origin)
+                    r.narrow = (node.left.id, None, payload) if isinstance(op, ast.Is) else (node.left.id, payload, None)
                 return r
             # chained: short-circuit
             if not self.st.decide(self.truth(r)):
@@ -1457,7 +1519,7 @@ class Executor:
                 if z3.is_int_value(sn) and sn.as_long() == 0:
                     conc = []
                 seq = IterV(n, lambda i: o.k.project(st, keys[i]), concrete=conc)
-                seq.keys, seq.pos = o.keys, o.pos
+                seq.keys, seq.pos, seq.member = o.keys, o.pos, o.member
                 seq.source_dict = v
                 return seq
             if isinstance(o, SetObj):
